@@ -3,9 +3,9 @@ own so that concurrent builders do not edit the shared registry - merge at will)
 
     /venv/bin/python -m selftest.mutations_c05 [id ...]     # runs ./check C05 on each mutant
 
-Because the unchanged tree already violates C05 through finding F10, every mutant is applied on
-top of the F10 repair (F10_FIX) and counts as caught only if the check reports a signature OTHER
-than F10's.
+When the tree still has finding F10 (it violates C05 by itself), every mutant is applied on top of
+the F10 repair (F10_FIX, skipped if the tree already has it) and counts as caught only if the
+check reports a signature OTHER than F10's.
 """
 
 from __future__ import annotations
@@ -29,6 +29,26 @@ F10_FIX = dict(
 )
 
 MUTATIONS = {
+    # ---- independently seeded regression /verif/seeded/C05-w2 -----------------------------
+    # left/right padding sliced (by code points) from one padding line: wrong for one-column
+    # fills made of several code points (SGR-wrapped blank/glyph, base + combining character)
+    "c05-pad-sides-sliced-from-line": dict(
+        file="padding.py", props=["C05"],
+        old="""            left_padding = fill * left
+            right_padding = fill * right
+""",
+        new="""            left_padding = (fill * width)[:left]
+            right_padding = (fill * width)[:right]
+""",
+    ),
+    # finding F10 brought back (the tree has it repaired): must ring with F10's own signature
+    "c05-f10-reintroduced": dict(
+        file="image/common.py", props=["C05"], expect_f10=True,
+        old="""            top = f"{' ' * max(width, cols)}\\n" * top
+            bottom = f"\\n{' ' * max(width, cols)}" * bottom""",
+        new="""            top = f"{' ' * width}\\n" * top
+            bottom = f"\\n{' ' * width}" * bottom""",
+    ),
     # ---- DESIGN.md "Must catch" -----------------------------------------------------------
     "c05-right-off-by-one": dict(
         file="padding.py", props=["C05"],
@@ -121,6 +141,8 @@ def apply(mid: str, edits) -> Path:
     for e in edits:
         f = root / "src" / "term_image" / e["file"]
         text = f.read_text()
+        if e is F10_FIX and e["new"] in text:
+            continue  # F10 is already repaired in the tree
         if text.count(e["old"]) != 1:
             raise SystemExit(f"{mid}: pattern occurs {text.count(e['old'])} times in {e['file']}")
         f.write_text(text.replace(e["old"], e["new"]))
@@ -128,7 +150,12 @@ def apply(mid: str, edits) -> Path:
 
 
 def run(mid: str, tier: str = "quick") -> bool:
-    edits = [F10_FIX] if mid == "f10-fixed" else [F10_FIX, MUTATIONS[mid]]
+    if mid == "f10-fixed":
+        edits = [F10_FIX]
+    elif MUTATIONS[mid].get("expect_f10"):
+        edits = [MUTATIONS[mid]]
+    else:
+        edits = [F10_FIX, MUTATIONS[mid]]
     root = apply(mid, edits)
     try:
         env = dict(os.environ, VERIF_REPO=str(root))
@@ -136,8 +163,11 @@ def run(mid: str, tier: str = "quick") -> bool:
                            stdout=subprocess.PIPE, stderr=subprocess.STDOUT, text=True, timeout=3600)
     finally:
         shutil.rmtree(root, ignore_errors=True)
-    sigs = sorted({l.strip()[len("signature: "):] for l in p.stdout.splitlines()
-                   if l.strip().startswith("signature:")} - {F10_SIG})
+    sigs = {l.strip()[len("signature: "):] for l in p.stdout.splitlines() if l.strip().startswith("signature:")}
+    if MUTATIONS.get(mid, {}).get("expect_f10"):
+        sigs = sorted(sigs & {F10_SIG})
+    else:
+        sigs = sorted(sigs - {F10_SIG})
     if mid == "f10-fixed":
         ok = p.returncode == 0
         print(f"BASE f10-fixed exit={p.returncode} {'clean' if ok else 'NOT CLEAN ' + str(sigs)}", flush=True)
